@@ -81,6 +81,7 @@ def check(ctx):
     inv_sequence(ctx, P, cg)
     private_submit(ctx, P, cg)
     private_queue(ctx, P, cg)
+    private_reattempt(ctx, P)
 
 
 # ------------------------------------------------------------------------------------------------
@@ -477,3 +478,19 @@ def pending_chain(P, pk, subst, name):
     rets = [e for e in exits(l, P) if e.kind == "ret" and is_expr(e.value)]
     ok = len(rets) == 1 and is_call_to("PrivateBroadcast::IsPending", rets[0].value) and F.implies(F.T, rets[0].formula)
     return bool(ok), "filter predicate is %s" % (show(rets[0].value) if rets else "?")
+
+
+# ------------------------------------------------------------------------------------------------
+def private_reattempt(ctx, P):
+    """A stale private-broadcast transaction is only TEST-accepted before it is re-queued: the periodic task must not put it into
+    the mempool (from where it would be announced to every peer, linking it to this node)."""
+    f = ctx.used(P.fn("PeerManagerImpl::ReattemptPrivateBroadcast"))
+    ps = sites(f, lambda e: callee(e) == "ChainstateManager::ProcessTransaction", P, "all")
+    ctx.floor("ReattemptPrivateBroadcast ProcessTransaction calls", len(ps), 1)
+    for s in ps:
+        a = call_args(s.expr)
+        ok = len(a) >= 2 and match(["bool", True], peel(a[1])) and a[1][0] != "defarg"
+        ctx.ob("ReattemptPrivateBroadcast/test-accept-only@L%s" % s.line, "PROVENANCE", "the periodic private-broadcast task calls ProcessTransaction with test_accept = true "
+               "(the stale transaction is validated, never submitted to the mempool)", ok, s.where, {"args": [show(x)[:60] for x in a]})
+    subs = [q for q in ("CTxMemPool::addNewTransaction", "node::BroadcastTransaction") if sites(f, lambda e, q=q: callee(e) == q, P, "all")]
+    ctx.ob("ReattemptPrivateBroadcast/no-submission", "WHO-MAY-CALL", "the task itself calls no mempool submission entry point", not subs, f.where, {"calls": subs} if subs else None)
